@@ -1389,8 +1389,38 @@ func (c *c05Ctx) registeredWithMethod(l *c05Law) {
 	})
 }
 
+// c05Namer / c05Named: an INTERFACE type registered as safe makes the values in slots of that type safe (the slot's own
+// type is looked up as well as the type of the value it holds).
+type c05Namer interface{ Name() string }
+type c05Named int
+
+func (n c05Named) Name() string { return "n" }
+
+func (c *c05Ctx) registeredInterfaceType(l *c05Law) {
+	c05WithRegistered([]reflect.Type{reflect.TypeOf((*c05Namer)(nil)).Elem()}, func() {
+		for _, tc := range []struct {
+			txt  string
+			v    interface{}
+			want string
+		}{
+			{"[]c05Namer{c05Named(7)}", []c05Namer{c05Named(7)}, "[7]"},
+			{"map[SafeString]c05Namer{\"k\": c05Named(7)}", map[SafeString]c05Namer{"k": c05Named(7)}, "map[k:7]"},
+			{"[]interface{}{c05Named(7)} /* not a slot of the registered type */", []interface{}{c05Named(7)}, "[" + vS + "7" + vE + "]"},
+		} {
+			call := "with RegisterSafeType{c05Namer (an interface type)}: " + fmt.Sprintf("Sprintf(\"%%v\", %s)", tc.txt)
+			out := string(Sprintf("%v", tc.v))
+			l.cases++
+			l.nontrivial++
+			if out != tc.want {
+				c.fail(call, out, "a registered interface type makes the values in slots of that type safe: want "+strconv.Quote(tc.want))
+			}
+		}
+	})
+}
+
 func (c *c05Ctx) registry(l *c05Law, tier int) {
 	c.registeredWithMethod(l)
+	c.registeredInterfaceType(l)
 	types := []reflect.Type{reflect.TypeOf(c05RegInt(0)), reflect.TypeOf(c05RegStr("")), reflect.TypeOf(c05RegStruct{}), reflect.TypeOf(int32(0))}
 	names := []string{"c05RegInt", "c05RegStr", "c05RegStruct", "int32"}
 	before := len(c05SafeTypeRegistry)
